@@ -69,6 +69,7 @@ func limitRun(r *simrt.Run, tier string, withTimeout bool) {
 	probeTimeout := []time.Duration{0, 10 * time.Millisecond, 2 * time.Second}[t.Intn(3)]
 	racingLate := t.Intn(4) // 0 = no racing-late-borrower phase
 	raceTimeout := []time.Duration{time.Hour, 2 * time.Second, 10 * time.Millisecond, 0}[t.Intn(4)]
+	racingReturns := t.Intn(3) // 0 = no racing-returns round
 	w.n = n
 	w.g = newGauge(r, w.comp, n)
 	if withTimeout {
@@ -164,7 +165,63 @@ func limitRun(r *simrt.Run, tier string, withTimeout bool) {
 			return
 		}
 	}
+	for i := 0; i < racingReturns; i++ {
+		if !w.racingReturnsRound(i) {
+			return
+		}
+	}
 	r.Probe("oracle")
+}
+
+// racingReturnsRound: main holds k of the n permits (nothing else is outstanding, nobody waits) and k+x
+// tasks call Return at the same time.  However they interleave, exactly k of the calls give a permit back
+// (nil) and x are refused with ErrLimitReturn; no Return blocks; afterwards all n permits are available.
+func (w *limWorld) racingReturnsRound(round int) bool {
+	r, t := w.r, w.r.Tape
+	k := t.Range(0, w.n)
+	x := t.Range(1, 3)
+	for i := 0; i < k; i++ {
+		if !w.try() {
+			r.Fail(w.comp+"/capacity-leak", "%s racing-returns round %d: with no holder left only %d of %d permits could be borrowed", w.comp, round, i, w.n)
+			return false
+		}
+		w.g.enter("main")
+	}
+	for i := 0; i < k; i++ {
+		w.g.exit("main") // the permits are handed to the returning tasks
+	}
+	errs := make([]error, k+x)
+	var ts []*simrt.Task
+	for i := 0; i < k+x; i++ {
+		i := i
+		ts = append(ts, r.Go(fmt.Sprintf("returner%d", i), func() { errs[i] = w.ret() }))
+	}
+	if !r.JoinTimeout(checkBudget, ts...) {
+		r.Fail(w.comp+"/over-return-blocked", "%s: %d Return calls racing on %d outstanding permit(s): a Return did not return: %v", w.comp, k+x, k, r.AliveTasks())
+		return false
+	}
+	r.Quiesce()
+	if r.Failed() {
+		return false
+	}
+	okN, refused := 0, 0
+	for _, e := range errs {
+		switch e {
+		case nil:
+			okN++
+		case syncx.ErrLimitReturn:
+			refused++
+		default:
+			r.Fail(w.comp+"/return-error", "%s: Return gave %v, neither nil nor ErrLimitReturn", w.comp, e)
+			return false
+		}
+	}
+	if okN != k {
+		r.Fail(w.comp+"/over-return-not-reported", "%s: %d Return calls racing on %d outstanding permit(s): %d succeeded, %d were refused", w.comp, k+x, k, okN, refused)
+		return false
+	}
+	r.Probe("racing-returns-judged")
+	return w.capacityCheck("after racing returns", false, false, 0)
 }
 
 // racingLateBorrower: with every permit out, a Borrow beyond the cap is started and the holders give all
